@@ -140,7 +140,7 @@ ROOT = z3.Function('ROOT', IntS, IntS)
 
 def root_axioms(n, W):
     """ROOT is the fixpoint reached by iterating NXT.  Existence/uniqueness: NXT either stays or strictly increases the weight
-    (that is what the contracts of _qs_next/_gs_next give), so iteration terminates on a finite set (lemma `root_exists`, Lean)."""
+    (that is what the contracts of _qs_next/_gs_next give), so iteration terminates on a finite set (Lean theorem `ascent_reaches_a_root`, lemmas/lean/Lemmas.lean, machine-checked)."""
     return [ForAll([p_], Implies(And(0 <= p_, p_ < n), And(0 <= NXT(p_), NXT(p_) < n)), patterns=[NXT(p_)]),
             ForAll([p_], Implies(And(0 <= p_, p_ < n, NXT(p_) != p_), W(NXT(p_)) > W(p_)), patterns=[NXT(p_)]),
             ForAll([p_], Implies(And(0 <= p_, p_ < n), And(0 <= ROOT(p_), ROOT(p_) < n, NXT(ROOT(p_)) == ROOT(p_),
@@ -297,3 +297,4 @@ def u_fit(mode):
 
 UNITS = [u_qs_next, u_gabriel, u_gs_next, lambda: u_fit('qs'), lambda: u_fit('gs'), ascend_lemma_qs, ascend_lemma_gs, root_lemmas]
 RT = True
+LEAN_LEMMAS = "lemmas/lean/Lemmas.lean"
